@@ -3,6 +3,7 @@ import RtenVerif.Lemmas.NpyTotal
 import RtenVerif.Lemmas.NpyNpz
 import RtenVerif.Lemmas.NpyFortran
 import RtenVerif.Lemmas.NpyUtf8
+import RtenVerif.Lemmas.NpySafetensors
 
 /-!
 # C34 — Tensor file formats round-trip and reject malformed files
@@ -252,11 +253,71 @@ theorem c34_utf8_between_quotes (pre s rest : List Nat)
     (h : validUtf8 (pre ++ 39 :: (s ++ 39 :: rest)) = true) : validUtf8 s = true :=
   validUtf8_between_quotes pre s rest h
 
+/-! ## safetensors wrapper (first-party logic of `safetensors.rs`; the container crate is external) -/
+
+/-- **C34.S1** The dtype maps are mutually inverse on the supported types:
+`data_type_from_safetensors ∘ DTYPE = id`, and nothing else maps to a supported type. -/
+theorem c34_st_dtype_maps :
+    (∀ dt : DataType, dataTypeFromSafetensors (stDtypeOf dt) = some dt) ∧
+    (∀ (d : StDtype) (dt : DataType), dataTypeFromSafetensors d = some dt → d = stDtypeOf dt) :=
+  ⟨dataTypeFromSafetensors_stDtypeOf, fun _ _ h => stDtypeOf_of_dataTypeFromSafetensors h⟩
+
+/-- **C34.S2 ("from any memory layout")** `SafeElement::to_le_bytes` gives the same bytes whether
+it takes the contiguous fast path (`cast_slice(view.data())`) or the iterator path: for every
+dtype, shape and strides (contiguous per `is_contiguous` or not, zero strides, size-1 dims with
+arbitrary strides, empty dims) and every storage that covers the layout, the bytes are the
+little-endian encodings of the elements in logical order. -/
+theorem c34_st_fast_path_eq_iter (dt : DataType) (v : SView)
+    (hl : v.shape.length = v.strides.length)
+    (hs : minDataLen v.shape v.strides ≤ v.storage.length) :
+    stToLeBytes dt v = ((viewIter v).map (encodeElem dt)).flatten :=
+  stToLeBytes_eq_iter dt v hl hs
+
+-- non-vacuity: a contiguous view with a size-1 dim of odd stride takes the fast path, a transposed
+-- one does not; both satisfy the hypotheses
+example : isContig [2, 1, 3] [3, 77, 1] = true ∧ isContig [3, 2] [1, 3] = false ∧
+    minDataLen [2, 1, 3] [3, 77, 1] = 6 ∧ minDataLen [3, 2] [1, 3] = 6 ∧
+    viewIter ⟨[10, 11, 12, 13, 14, 15], [3, 2], [1, 3]⟩ = [10, 13, 11, 14, 12, 15] := by decide
+
+/-- **C34.S3** Wrapper round trip: decoding (`from_le_bytes`) what `to_le_bytes` produced for any
+view yields exactly its logical elements, `∏ shape` of them, and the dtype survives the maps. -/
+theorem c34_st_round_trip (dt : DataType) (v : SView)
+    (hl : v.shape.length = v.strides.length)
+    (hs : minDataLen v.shape v.strides ≤ v.storage.length)
+    (hv : ∀ x ∈ v.storage, ValidElem dt x) :
+    stFromLeBytes dt (stToLeBytes dt v) = viewIter v ∧ (viewIter v).length = prod v.shape ∧
+    dataTypeFromSafetensors (stDtypeOf dt) = some dt := by
+  refine ⟨?_, by simp [viewIter], dataTypeFromSafetensors_stDtypeOf dt⟩
+  rw [stToLeBytes_eq_iter dt v hl hs]
+  exact stFromLeBytes_encode dt _ (viewIter_valid dt v hv)
+
+/-- **C34.S4** `from_le_bytes` on arbitrary bytes: `⌊len / size⌋` elements (a trailing partial
+chunk is dropped by `chunks_exact`), and for `bool` every byte `b` — not only 0/1 — reads as `b != 0`. -/
+theorem c34_st_from_le_bytes (dt : DataType) (bytes : List Nat) :
+    (stFromLeBytes dt bytes).length = bytes.length / dt.itemSize ∧
+    stFromLeBytes .bool bytes = bytes.map (fun b => if b ≠ 0 then 1 else 0) :=
+  ⟨stFromLeBytes_length dt bytes, stFromLeBytes_bool bytes⟩
+
+/-- **C34.T4b** The last step of `npy::read_typed`, `Tensor::try_from_data(shape, values)`, cannot
+fail on an accepted file: the model has no error class for "invalid npy array shape" because the
+size guard implies `checked_shape_len(shape) = Some(values.len())`. -/
+theorem c34_try_from_data_unreachable (file : List Nat) (a : Array) (h : read file = .ok a) :
+    tryFromDataOk a.shape a.vals.length = true := by
+  obtain ⟨_, _, _, _, _, hg, _, _, hlen⟩ := read_ok_sizes file a h
+  rw [hlen]
+  exact tryFromDataOk_of_guard a.shape hg
+
+example : tryFromDataOk [0, 2 ^ 40, 2 ^ 40] 0 = false ∧ tryFromDataOk [0, 5] 0 = true ∧
+    tryFromDataOk [2, 3] 6 = true ∧ tryFromDataOk [2, 3] 5 = false := by decide
+
 /-! ## npz entry names -/
 
 /-- **C34.N1** `npz_file_name` yields `base.npy` (non-empty base) for a name given with or without
 the suffix; it is idempotent; and `npz::read` reports the entry under `base`. So a tensor written
-as `name` is found again by `read_array(name)`, `read_array(file name)` and under the stripped key. -/
+as `name` is found again by `read_array(name)`, `read_array(file name)` and under the stripped key —
+provided no other written name maps to the same entry: `"a"` and `"a.npy"` both map to `a.npy`, and
+`npz::write` given both fails with the zip crate's duplicate-filename error (harness case
+`# npz-duplicate`; nothing is silently shadowed). -/
 theorem c34_npz_names (name f : List Nat) (h : npzFileName name = some f) :
     ∃ base, base ≠ [] ∧ f = base ++ npySuffix ∧ (name = base ∨ name = base ++ npySuffix) ∧
       npzFileName f = some f ∧ npzKey f = some base := by
